@@ -60,6 +60,10 @@ pub struct GatherPlan {
     pub orders: Vec<Vec<usize>>,
     pub hash_seeds: Vec<u64>,
     pub concurrent_gather: bool,
+    /// collectors that every replica registers and unregisters again BEFORE the content proper: what
+    /// a registry remembers about a name must not leak into later families
+    #[serde(default)]
+    pub prelude: Vec<MetricSpec>,
 }
 
 const BOUNDS: [f64; 2] = [4.0, 64.0];
@@ -109,7 +113,7 @@ pub fn gen_plan(seed: u64, mixed_kinds: bool) -> GatherPlan {
         };
         let mut spec = spec;
         if spec.kind.is_vec() {
-            let nc = r.below(5) as usize;
+            let nc = if r.chance(5) { 9 + r.below(12) as usize } else { r.below(5) as usize };
             // prefix relations, control characters and separators-to-be: the order of samples must be
             // the lexicographic order of the value tuples, whatever bytes the values contain
             let pool = ["", "a", "b", "ab", "B", "é", "10", "9", "a\n", "a\t", "a\u{1f}", "a\u{1f}b", "\u{0}", "a\u{0}", "a b", "a,b", "a\u{ff}"];
@@ -139,7 +143,23 @@ pub fn gen_plan(seed: u64, mixed_kinds: bool) -> GatherPlan {
     let ncommon = r.below(4) as usize;
     let common: Vec<(String, String)> = ["zone", "dc", "rack"][..ncommon.min(3)].iter().map(|s| (s.to_string(), format!("c{}", r.below(3)))).collect();
     let env = Env::swarm(&mut r, k, 200, false);
-    GatherPlan { env, prefix, common, metrics, orders, hash_seeds, concurrent_gather: r.chance(30) }
+    // history prelude: a collector of ANOTHER kind under one of the names (same help and label names),
+    // registered and unregistered before the content
+    let mut prelude = vec![];
+    if mixed_kinds && r.chance(30) {
+        let m = r.pick(&metrics).clone();
+        if m.kind != MK::Pulling {
+            let pool: Vec<MK> = if m.kind.is_vec() { vec_kinds.to_vec() } else { plain_kinds[..5].to_vec() };
+            let other: Vec<MK> = pool.into_iter().filter(|k| k.ptype() != m.kind.ptype()).collect();
+            let mut t = m.clone();
+            t.kind = r.pick(&other).clone();
+            if t.children.is_empty() && t.kind.is_vec() {
+                t.children.push((t.vars.iter().map(|_| "p".to_string()).collect(), 7));
+            }
+            prelude.push(t);
+        }
+    }
+    GatherPlan { env, prefix, common, metrics, orders, hash_seeds, concurrent_gather: r.chance(30), prelude }
 }
 
 fn hist_model(v: u32) -> compat::PHist {
@@ -285,6 +305,21 @@ fn register(reg: &Registry, b: &Built) -> std::result::Result<(), String> {
     r.map_err(|e| e.to_string())
 }
 
+fn unregister(reg: &Registry, b: &Built) -> std::result::Result<(), String> {
+    let r = match b {
+        Built::C(c) => reg.unregister(Box::new(c.clone())),
+        Built::IC(c) => reg.unregister(Box::new(c.clone())),
+        Built::G(c) => reg.unregister(Box::new(c.clone())),
+        Built::IG(c) => reg.unregister(Box::new(c.clone())),
+        Built::H(c) => reg.unregister(Box::new(c.clone())),
+        Built::P(c) => reg.unregister(Box::new(c.clone())),
+        Built::CV(c) => reg.unregister(Box::new(c.clone())),
+        Built::IGV(c) => reg.unregister(Box::new(c.clone())),
+        Built::HV(c) => reg.unregister(Box::new(c.clone())),
+    };
+    r.map_err(|e| e.to_string())
+}
+
 #[derive(Clone, Debug)]
 pub struct Replica {
     pub fams: Vec<PFamily>,
@@ -321,6 +356,17 @@ pub fn run_replicas(plan: &GatherPlan, mode: Mode) -> (crate::engine::RunResult,
                 }
             };
             let mut built = vec![];
+            for p in &plan.prelude {
+                if let Ok(b) = build_metric(p) {
+                    if register(&reg, &b).is_ok() {
+                        let _ = reg.gather();
+                        if let Err(e) = unregister(&reg, &b) {
+                            errors.push(format!("unregister of prelude {}: {}", p.name, e));
+                        }
+                    }
+                    built.push(b);
+                }
+            }
             for &i in &order {
                 match build_metric(&plan.metrics[i]) {
                     Ok(b) => {
@@ -583,6 +629,11 @@ pub fn shrink_gather(plan: &Value) -> Vec<Value> {
     if p.concurrent_gather {
         let mut n = p.clone();
         n.concurrent_gather = false;
+        c.push(n);
+    }
+    if !p.prelude.is_empty() {
+        let mut n = p.clone();
+        n.prelude.clear();
         c.push(n);
     }
     c.into_iter().map(|p| serde_json::to_value(p).unwrap()).collect()
